@@ -5,7 +5,7 @@ of min+(max-min)*u near max is a runtime quantity and is not decided).
 import ast
 
 from ..absint import Sym, Itv
-from ..model import walk_shallow, call_name, is_self_attr, dotted_name, parent, ancestors, enclosing_function, AnalysisError
+from ..model import walk_shallow, call_name, is_self_attr, dotted_name, parent, ancestors, enclosing_function, AnalysisError, qualname
 from ..util import (has_call, find_calls, assigned_value, const_str, unparse, kw, arg_or_kw, enclosing_stmt,
                     guards_of, call_tail, control_ancestors, name_bound, bound_names)
 from .. import mutate as M
@@ -22,6 +22,7 @@ PURE_IMPORT_MODULES = {"math", "itertools", "operator", "typing", "time"}
 
 
 def run(ctx):
+    seed_truthiness(ctx, "C05.R5")
     r1_effects(ctx)
     r2_time_guard(ctx)
     r3_intervals(ctx)
@@ -575,6 +576,44 @@ def r4_consumers(ctx, rule="C05.R4"):
             ctx.ob(rule, rel, qual, c, "action and reported probability come from one choicew call", ok, detail={"how": how})
     ctx.floor(rule, "choicew consumer sites", n, 6)
 
+
+def _seedish(e):
+    if isinstance(e, ast.Name):
+        return e.id.lower().endswith("seed")
+    if isinstance(e, ast.Attribute):
+        return e.attr.lower().endswith("seed")
+    return False
+
+
+def seed_truthiness(ctx, rule, prefixes=("coba/",)):
+    """An explicit seed is honoured for every value, 0 included: no seed-valued expression is tested for truthiness
+    (`seed or default`, `x if seed else y`, `if not seed:`) -- absence is tested with `is None`."""
+    ctx.rule(rule, "no seed-valued expression (name/attribute ending in 'seed') is tested for truthiness: `seed or default` / `if seed` would "
+                   "discard the legal seed 0; absence is tested with `is None`")
+    n_none = 0
+    for rel, mod in sorted(ctx.model.modules.items()):
+        if rel.startswith("coba/tests") or not rel.startswith(tuple(prefixes)):
+            continue
+        for x in ast.walk(mod.tree):
+            bad = []
+            if isinstance(x, ast.BoolOp):
+                vs = x.values[:-1] if isinstance(x.op, ast.Or) else x.values
+                bad = [v for v in vs if _seedish(v)]
+            elif isinstance(x, (ast.IfExp, ast.If, ast.While)):
+                t = x.test
+                if isinstance(t, ast.UnaryOp) and isinstance(t.op, ast.Not):
+                    t = t.operand
+                if _seedish(t):
+                    bad = [t]
+            elif isinstance(x, ast.Compare) and _seedish(x.left) and len(x.ops) == 1 and isinstance(x.ops[0], (ast.Is, ast.IsNot)) \
+                    and isinstance(x.comparators[0], ast.Constant) and x.comparators[0].value is None:
+                n_none += 1
+            for v in bad:
+                qual = qualname(v)
+                ctx.ob(rule, rel, qual, x, "a seed is not tested for truthiness (seed 0 is a legal explicit seed)", False,
+                       detail={"expression": unparse(x)[:120]})
+    ctx.note(f"{rule} examined {n_none} `seed is [not] None` tests; 0 truthiness tests expected")
+    ctx.floor(rule, "`seed is None` style tests in the package (non-vacuity)", n_none, 5)
 
 CONTROLS = [
     ("shuffle early return of the input", RND, M.replace_stmt("CobaRandom.shuffle", M.text_has("if n < 2"), "if n < 2:\n    return items"), "C05.R3"),
